@@ -69,6 +69,17 @@ def _call_sites():
                 s = Shape(arg, (2.0, 4.0, 1.5))
                 return repr((type(s.type).__name__, s.type == ShapeType.BOUNDING_BOX, s.type is ShapeType.BOUNDING_BOX, list(s.footprint.exterior.coords), tuple(s.size)))
             sites.append(("Shape(%s)" % st.value, obs(lambda: mk(st.value)), obs(lambda: mk(st))))
+    from shapely.geometry import Polygon
+
+    tri = Polygon([(1.0, 0.0, 0.0), (0.0, 1.0, 0.0), (-1.0, -1.0, 0.0)])
+    for st in ShapeType:
+        def mkf(arg):
+            s = Shape(arg, (2.0, 4.0, 1.5), tri)
+            return repr((type(s.type).__name__, s.type is st, list(s.footprint.exterior.coords), tuple(s.size)))
+        sites.append(("Shape(%s, footprint)" % st.value, obs(lambda: mkf(st.value)), obs(lambda: mkf(st))))
+    # a string that names no member is rejected with or without a footprint (observation = the exception type), like the bare parser
+    for bad in ("circle", "POLYGON ", ""):
+        sites.append(("Shape(non-member %r, footprint)" % bad, obs(lambda: repr(type(Shape(bad, (2.0, 4.0, 1.5), tri).type).__name__)), obs(lambda: repr(ShapeType.from_value(bad)))))
     for a in FrameID:
         for c in (FrameID.BASE_LINK, FrameID.MAP):
             def tk(x, y):
